@@ -3,12 +3,14 @@
 package main
 
 import (
+	"context"
 	"fmt"
 	"math/rand"
 	"os"
 	"os/exec"
 	"runtime"
 	"strings"
+	"time"
 
 	"go.lstv.dev/util/uu"
 	sched "go.lstv.dev/util/verifsync"
@@ -404,21 +406,31 @@ func main() {
 			g, n  string
 			procs string
 		}
-		raceRuns := []raceRun{{"16", "2000", ""}, {"8", "2000", "1"}}
+		raceRuns := []raceRun{{"16", "2000", ""}, {"8", "2000", "1"}, {"600", "60", ""}}
 		if !r.Quick() {
-			raceRuns = []raceRun{{"64", "10000", ""}, {"16", "10000", "1"}, {"4", "50000", "2"}}
+			raceRuns = []raceRun{{"64", "10000", ""}, {"16", "10000", "1"}, {"4", "50000", "2"}, {"2000", "100", ""}, {"600", "500", "4"}}
 		}
 		for _, rr := range raceRuns {
 			rr := rr
 			r.Phase(fmt.Sprintf("supplement (not deciding): free-running %s goroutines x %s draws under the Go race detector (real sync, real generator, first calls of a fresh process concurrent), GOMAXPROCS=%q", rr.g, rr.n, rr.procs), "one free run", func() {
 				bin := os.Args[0] + ".race"
-				cmd := exec.Command(bin, "-g", rr.g, "-n", rr.n)
+				limit := 90 * time.Second
+				if !r.Quick() {
+					limit = 8 * time.Minute
+				}
+				ctx, cancel := context.WithTimeout(context.Background(), limit)
+				defer cancel()
+				cmd := exec.CommandContext(ctx, bin, "-g", rr.g, "-n", rr.n)
 				cmd.Env = os.Environ()
 				if rr.procs != "" {
 					cmd.Env = append(cmd.Env, "GOMAXPROCS="+rr.procs)
 				}
 				out, err := cmd.CombinedOutput()
 				r.Extra["race_supplement_output_"+rr.g+"x"+rr.n+"_procs"+rr.procs] = strings.TrimSpace(lastLines(string(out), 3))
+				if ctx.Err() != nil { // the supplement is not the deciding step: a run that does not finish in time is recorded, not judged
+					r.Extra["race_supplement_timeout_"+rr.g+"x"+rr.n+"_procs"+rr.procs] = limit.String()
+					err = nil
+				}
 				if err != nil {
 					path := mc.Root + "/replays/C19/race_supplement_" + rr.g + "x" + rr.n + "_procs" + rr.procs + ".log"
 					os.MkdirAll(mc.Root+"/replays/C19", 0o755)
